@@ -539,6 +539,23 @@ func runC20(w *World, r *Report) {
 		r.Check(len(dagStores) == 1, "C20.gates", "graph.compile: single site sets runner.dag", gcompile.Pos(), "one store", "runner.dag set at several places")
 	}
 
+	// every node has a resolved type by the time compile reads its helper: a pass-through node that never got a data
+	// edge has a nil *genericHelper, and compile reads promoted fields through it
+	gate("pass-through node without a data edge", func(iff *ssa.If) (int, bool) {
+		op, x, y, ok := asCmp(iff.Cond)
+		if !ok || !isNilConst(y) {
+			return 0, false
+		}
+		f, _ := loadedField(x)
+		if f == nil || f.Name() != "genericHelper" {
+			return 0, false
+		}
+		if op == token.EQL {
+			return 0, true
+		}
+		return 1, true
+	})
+
 	// ---- presence
 	r.Rule("C20.presence", "ill-formed constructions are error arms that cannot reach the corresponding write", 8)
 	START, END := "start", "end"
@@ -910,6 +927,23 @@ func runC20(w *World, r *Report) {
 		}
 	}
 	r.Check(okr, "C20.chain-sticky", "Chain.reportError keeps the first error", rep.Pos(), "c.err written only when nil", "a later error overwrites the first one")
+	// compile: the sticky chain error is looked at before anything else — also before the "END already added" shortcut,
+	// which a failed earlier Compile leaves set
+	{
+		aen := w.Fn("compose", "Chain.addEndIfNeeded")
+		skip, wit := pathQuery{fn: aen, from: aen.Blocks[0].Instrs[0], goal: func(in ssa.Instruction) bool {
+			ret, ok := in.(*ssa.Return)
+			return ok && isNilConst(ret.Results[0])
+		}, avoid: func(in ssa.Instruction) bool {
+			iff, ok := in.(*ssa.If)
+			if !ok {
+				return false
+			}
+			_, x, y, ok := asCmp(iff.Cond)
+			return ok && isLoadOfField(x, fErr) && isNilConst(y)
+		}}.exists()
+		r.Check(!skip, "C20.chain-sticky", "Chain.addEndIfNeeded reports the sticky error on every path", aen.Pos(), "no nil return without testing c.err", "the chain's sticky error can be skipped at compile time ("+wit+"): after a first Compile that failed late (END already added), errors of later Append* calls are never reported and the next Compile succeeds")
+	}
 	// every Append* method reaches addNode / reportError only (no direct graph writes)
 	nApp := 0
 	chainT := w.Named("compose", "Chain")
